@@ -27,10 +27,23 @@ def norm_ctes(sql):
     from sqlglot import exp
     import re
     tree = sqlglot.parse_one(re.sub(r"--[^\n]*", "", sql), dialect="duckdb")
-    w = tree.args.get("with") or tree.args.get("with_")
-    if w:
+    for w in tree.find_all(exp.With):
         w.set("expressions", sorted(w.expressions, key=lambda c: c.alias_or_name))
     return tree.sql(dialect="duckdb")
+
+
+def junction_orphan(c):
+    """a junction (through) model is used while the model declaring the many_to_many is not part of the query"""
+    q = c["query"]
+    used = {x.split(".")[0] for x in q["metrics"] + q["dims"]}
+    for f in q["filters"]:
+        for col in c01.filter_cols(f):
+            used.add(col.split(".")[0])
+    for m in c["models"]:
+        for r in m["rels"]:
+            if r["type"] == "many_to_many" and r.get("through") in used and (m["name"] not in used or r["name"] not in used):
+                return True
+    return False
 
 
 def classify(c):
